@@ -30,14 +30,18 @@ META = {
         "llh2trs(lat,lon,h) is the point at distance h on the outward normal through the foot point, which lies on the "
         "ellipsoid and whose gradient is parallel to that normal; trs2llh: longitude = atan2(y,x) in (-pi,pi] (pi on the "
         "+-180 deg meridian), z -> -z negates the latitude and keeps height (southern hemisphere), pole branch, equator; "
-        "for f = 0 the one-step algorithm is the exact inverse of llh2trs; the exact solution of the latitude equation is a "
-        "fixed point of the Halley step (partial: the published accuracy of one step over the height range is NOT a theorem). "
+        "for f = 0 the one-step algorithm is the exact inverse of llh2trs, for every ellipsoid it is exact on the polar axis, in "
+        "the equatorial plane and (latitude) on the surface; the exact solution of the latitude equation is a fixed point of "
+        "the Halley step; for GRS80 the round trip error is < 1e-6 m on the surfaces h = +-100 km (all latitudes up to 85.9 "
+        "deg, all longitudes) and on the normals at four latitudes for all |h| <= 100 km (univariate Taylor-model "
+        "certificates; partial: the bound on the whole two-dimensional band is NOT a theorem). "
         "Verdict 0 of the correspondence is proved to mean: the implementation's doubles are within 1e-8 m + 4 ulp of the "
         "exact-arithmetic result of the modelled algorithm and the point on the "
         "normal through them is within 1e-6 m / 2 mm of the input (geo_cert_tolerance).  Ellipsoid retention: for every table "
         "of constructor call sites that forwards everywhere, every operation list (conversion, slice, subset, deep copy, "
-        "arithmetic, insert, .pos, view, factory) keeps the ellipsoid at every step (induction); the table is regenerated "
-        "from midgard/data/_position.py on every run and `forwarding_table_all_true` is checked on it.  The models are tied "
+        "arithmetic, insert, .pos/.vel, view, factory, HDF5 write/read; positions, posvels, deltas, velocities) keeps the "
+        "ellipsoid at every step (induction); the table is regenerated from midgard/data/_position.py on every run and "
+        "`forwarding_table_all_true` / `ellipsoid_preserved_today` are proved on it.  The models are tied "
         "to the code on every run by the correspondence described in coverage.rule."),
     "level_note": (
         "Partial: accuracy of the one-step Halley algorithm (< 1e-6 m below 100 km, < 2 mm up to 50 000 km) is decided per "
@@ -51,7 +55,8 @@ META = {
 THEOREMS = [
     "ellipsoid_params", "ellipsoid_table_published", "llh2trs_on_normal", "trs2llh_lon", "trs2llh_mirror", "trs2llh_pole",
     "trs2llh_equator_lat", "halley_fixed_point_partial", "halley_exact_on_surface", "trs2llh_exact_on_sphere",
-    "trs2llh_exact_on_axis", "trs2llh_exact_on_equator",
+    "trs2llh_exact_on_axis", "trs2llh_exact_on_equator", "grs80_constants", "halley_accuracy_on_height_surfaces_partial",
+    "halley_accuracy_on_normals_partial", "trs2llh_axially_symmetric",
     "check_trs2llh_sound", "check_llh2trs_sound", "geo_cert_tolerance",
     "ellipsoid_preserved", "forwarding_table_all_true", "ellipsoid_preserved_today", "every_site_modelled",
     "forwarding_ops_preserve", "check_flow_sound", "c05_ellipsoid_dropped_refuted",
@@ -553,8 +558,8 @@ def run(ctx):
         ctx.case(("P", name), nontrivial=True)
 
     # ---- 4. points
-    n_trs = 700 if ctx.quick() else 9000
-    n_llh = 300 if ctx.quick() else 4000
+    n_trs = 600 if ctx.quick() else 9000
+    n_llh = 260 if ctx.quick() else 4000
     casesT, metaT = [], []      # check_trs2llh
     casesL, metaL = [], []      # check_llh2trs
     casesRT, metaRT = [], []    # check_rt_trs
@@ -674,7 +679,7 @@ def run(ctx):
         metaO.append(rep)
         ctx.count(f"object_roundtrip:{ELLS[i]}")
         ctx.case(("O", i, tuple(hexs(arr))), nontrivial=(i != idef))
-    n_hist = 250 if ctx.quick() else 3000
+    n_hist = 200 if ctx.quick() else 3000
     casesF, metaF = [], []
     site_cov = {s_["site"]: 0 for s_ in sites}
     forced = sorted(SITES)                      # one history per applicable (kind, operation): every site is exercised
@@ -806,8 +811,10 @@ def run(ctx):
               "threshold p ~ a*1e-16, southern hemisphere; 7 ellipsoids; shapes (3,), (1,3), (n,3); both directions; through "
               "transformation.trs2llh/llh2trs and Position(...).llh/.trs.  Every point: (i) implementation vs interval enclosure of "
               "the exact-arithmetic algorithm, (ii) geometric certificate, (iii) round trip.  Objects: Position(...).llh.trs and "
-              "random histories of 1..6 operations (13-letter alphabet) on Position/PosVel objects of all ellipsoids, .ellipsoid "
-              "after every step vs the flow model over the regenerated table.  distinct_nontrivial = distinct (ellipsoid, input "
+              "one forced history per (kind, operation) pair (every one of the 35 constructor call sites is exercised in every run, "
+              "see site_coverage) + random histories of 1..7 operations (17-letter alphabet incl. HDF5 write/read) on "
+              "Position/PosVel/delta/velocity objects of all ellipsoids, .ellipsoid (of the object or its ref_pos) after every "
+              "step vs the flow model over the regenerated table.  distinct_nontrivial = distinct (ellipsoid, input "
               "doubles) points + distinct histories on a non-default ellipsoid"),
         extra=extra,
     )
